@@ -374,6 +374,10 @@ func (t *Teamserver) Start() {
 			HandlerData.Headers = strings.Split(Data["Headers"].(string), ", ")
 			HandlerData.Uris = strings.Split(Data["Uris"].(string), ", ")
 			HandlerData.BehindRedir = t.Profile.Config.Demon.TrustXForwardedFor
+			HandlerData.PortConn, _ = Data["PortConn"].(string)
+			HandlerData.HostHeader, _ = Data["HostHeader"].(string)
+			HandlerData.WorkingHours, _ = Data["WorkingHours"].(string)
+			HandlerData.Methode, _ = Data["Methode"].(string)
 
 			HandlerData.Secure = false
 			if Data["Secure"].(string) == "true" {
